@@ -13,7 +13,15 @@ python3 - <<'PY'
 import sys
 sys.path.insert(0, "harness/py")
 from vh import strenv
+from vh.crate import Crate, build_tool, build_many
 strenv.verify()
 print("setup: StrEnv.tla matches std")
+build_tool("vanalyse", "vanalyse")
+# warm the shared target dir: the dependency crates of the generated conformance crates
+main = lambda ids: "use nutype::nutype;\n#[nutype(derive(Debug))] pub struct W(i32);\nfn main() {}\n"
+feats = ["serde", "regex", "arbitrary", "new_unchecked"]
+build_many([Crate("warmup", feats, ["serde", "regex", "arbitrary", "serde_json"], {}, main)])
+build_many([Crate("warmup_hooks", feats + ["verif_hooks"], ["serde", "regex", "arbitrary"], {}, main)])
+print("setup: harness dependencies built")
 PY
 echo "setup: ok"
